@@ -893,7 +893,73 @@ func runScene(res *core.Result, r *rand.Rand, exhaustiveBits bool) {
 			res.Count("quiet_router_replays_refused", 1)
 		}
 	}
-	_ = v
+	// Reflection: what the victim itself signed and sent comes back to it - as it is, and (announcements) extended
+	// by a genuine hop record of the neighbour it was sent to, which is what that neighbour would attach when passing
+	// it on to a third router. Its own old frames are replays like any other: they change nothing at the victim.
+	{
+		var own []*vmesh.Packet
+		prev := ms.OnSend
+		ms.OnSend = func(p *vmesh.Packet) {
+			if p.From == V && netip.AddrFrom16([16]byte(p.Data[16:32])) == v.ID.IP {
+				cp := *p
+				cp.Data = append([]byte(nil), p.Data...)
+				own = append(own, &cp)
+			}
+			if prev != nil {
+				prev(p)
+			}
+		}
+		time.Sleep(2 * time.Millisecond)
+		for _, l := range v.Links {
+			_ = v.Inst.RouterV.AnnouncePing.Send(l.Peer())
+		}
+		_, _, _ = v.Inst.RouterV.PingPong.Send(ms.Nodes[1].ID.IP, false, 0)
+		ms.OnSend = prev
+		settle()
+		for _, p := range own {
+			variants := [][]byte{p.Data}
+			names := []string{"as-sent"}
+			Q := p.Data
+			mi := 49 + int(Q[48])
+			if len(Q) >= mi+2 && (Q[4] == byte(frame.RouterHopPing) || Q[4] == byte(frame.RouterHopPingDeprecated)) {
+				end := mi + 2 + (int(Q[mi])<<8 | int(Q[mi+1])) + 64
+				if end == len(Q) {
+					K := ms.Nodes[p.To].ID
+					back := v.Links[p.To]
+					att := router.AnnouncePingAttachment{Router: K.PublicAddress, Delay: 3, ForwardLabel: 21, ReturnLabel: 22}
+					if back != nil {
+						att.ReturnLabel = back.SwitchLabel()
+					}
+					ab, _ := cbor.Marshal(att)
+					ctx := make([]byte, 88)
+					copy(ctx[:16], Q[16:32])
+					copy(ctx[16:24], Q[8:16])
+					copy(ctx[24:], Q[end-64:end])
+					if sig, serr := K.SignWithContext(ab, ctx); serr == nil {
+						variants = append(variants, append(append(append([]byte(nil), Q...), ab...), sig...))
+						names = append(names, "with-a-genuine-hop-record-of-the-neighbour")
+					}
+				}
+			}
+			for i, d := range variants {
+				before := sc.snapshot()
+				deliver(d, p.To)
+				if len(ms.Panics) > 0 {
+					res.Violate("handler-panic", fmt.Sprintf("the victim's own frame reflected to it (%s): %v", names[i], ms.Panics[0]), nil)
+					return
+				}
+				if df := diff(before, sc.snapshot()); len(df) > 0 {
+					res.Violate("unauthenticated-ping-changed-state:own-frame-reflected:"+names[i],
+						fmt.Sprintf("a frame of type %d that the victim itself had sent to node %d, delivered back to it over that link (%s), changed the victim's state: %s", Q[4], p.To, names[i], strings.Join(df[:min(len(df), 4)], "; ")),
+						map[string]any{"case_id": "own-frame-reflected"})
+					return
+				}
+				settle()
+				res.Count("own_frames_reflected:"+names[i], 1)
+				res.Case(fmt.Sprintf("own-frame-reflected|%d|%s", Q[4], names[i]), true)
+			}
+		}
+	}
 	res.Count("scenes_completed", 1)
 }
 
